@@ -64,7 +64,8 @@ def case_strategy(draw, tier):
     max_n = 20 if tier == "quick" else 120
     k = draw(st.integers(0, 40 if tier == "quick" else 20))
     if k == 0:
-        n = draw(st.sampled_from([1500, 2500] if tier == "quick" else [10_000]))
+        # large neurons: the written text passes 64 KiB, 1 MiB and 2 MiB
+        n = draw(st.sampled_from([1500, 2500, 26_000, 50_000] if tier == "quick" else [10_000, 26_000, 50_000, 120_000]))
         t = {"bulk": [draw(st.integers(0, 2 ** 31)), n,
                       draw(st.sampled_from(["chain", "caterpillar", "binary"])), "float"]}
     else:
@@ -91,22 +92,33 @@ def case_strategy(draw, tier):
         "comments_on": draw(st.integers(0, 3)) > 0,
         "comments": draw(st.lists(comment(), max_size=4)),
         "kind": draw(st.sampled_from(["str", "bytes", "path"])),
+        # byte streams / files in another encoding of the same text (read back with that encoding named)
+        "encoding": draw(st.sampled_from(["utf-8", "utf-8", "utf-8", "utf-16", "utf-32", "utf-8-sig", "utf-16-le", "utf-32-be"])),
+        # how the tree got its comments: handed to the constructor, or appended to a tree built without any - after another
+        # comment-less tree (a decoy) was annotated in the same way
+        "comments_via": draw(st.sampled_from(["constructor", "constructor", "appended"])),
     }
 
 
-def _open(text_or_none, kind, ctx, tree, kw, name):
-    """Write with the requested source kind and return something from_swc can read."""
+def _open(text_or_none, kind, ctx, tree, kw, name, encoding="utf-8"):
+    """Write with the requested source kind and return (something from_swc can read, the written text, read options)."""
     if kind == "path":
         path = os.path.join(ctx.tmpdir, name)
         ret = tree.to_swc(path, **kw)
         ctx.check(ret is None, "to_swc/path-returns-none", f"{ret!r}")
         with open(path, "r", encoding="utf-8", newline="") as f:
             content = f.read()
-        return path, content
+        if encoding != "utf-8":
+            with open(path, "wb") as f:  # the same text stored in another encoding
+                f.write(content.encode(encoding))
+            return path, content, {"encoding": encoding}
+        return path, content, {}
     text = tree.to_swc(**kw)
     if kind == "str":
-        return io.StringIO(text), text
-    return io.BytesIO(text.encode("utf-8")), text
+        return io.StringIO(text), text, {}
+    if encoding != "utf-8":
+        return io.BytesIO(text.encode(encoding)), text, {"encoding": encoding}
+    return io.BytesIO(text.encode("utf-8")), text, {}
 
 
 def _strip(cs):
@@ -120,7 +132,17 @@ def run_case(case, ctx):
     t = gen_tree.materialize(case["tree"])
     parents = t["parents"]
     n = len(parents)
-    tree = gen_tree.build_tree(t, extras=False, source=case["tree_source"], comments=list(case["comments"]))
+    via = case.get("comments_via", "constructor")
+    if via == "appended":
+        decoy = gen_tree.build_tree({"parents": [-1, 0], "x": [0.0, 1.0], "y": [0.0, 0.0], "z": [0.0, 0.0], "r": [1.0, 1.0], "type": [1, 3]},
+                                    extras=False)
+        decoy.comments.append("a note on another neuron")
+        tree = gen_tree.build_tree(t, extras=False, source=case["tree_source"], comments=None)
+        ctx.check(list(tree.comments) == [], "comments/a-new-tree-has-none", lambda: f"{tree.comments!r}")
+        tree.comments.extend(case["comments"])
+        ctx.cls("comments-appended-after-construction")
+    else:
+        tree = gen_tree.build_tree(t, extras=False, source=case["tree_source"], comments=list(case["comments"]))
     id_offset = case["id_offset"] if case["id_offset"] != "max" else 2 ** 31 - 1 - n
     case = dict(case, id_offset=id_offset)
     kw = {"id_offset": id_offset, "source": case["source"], "comments": case["comments_on"]}
@@ -145,10 +167,15 @@ def run_case(case, ctx):
     ctx.nontrivial(n >= 3 and (has_furc or depth >= 3) and inexact and
                    (case["id_offset"] != 1 or (case["comments_on"] and case["comments"]) or case["kind"] != "str"))
 
-    src, content = _open(None, case["kind"], ctx, tree, kw, "a.swc")
+    enc = case.get("encoding", "utf-8") if case["kind"] != "str" else "utf-8"
+    src, content, rkw = _open(None, case["kind"], ctx, tree, kw, "a.swc", enc)
     text = tree.to_swc(**kw)
     ctx.check(content == text, "to_swc/file-content-equals-string-form", "file differs from returned string")
-    back = Tree.from_swc(src)
+    if rkw:
+        ctx.cls("stored-as:" + enc)
+    if len(text) > 2 ** 20:
+        ctx.cls("text-longer-than-1MiB")
+    back = Tree.from_swc(src, **rkw)
 
     # the text itself: one row per node, ids shifted by the requested offset, the root keeps -1
     rows = [ln.split() for ln in text.split("\n") if ln and not ln.startswith("#")]
@@ -192,8 +219,8 @@ def run_case(case, ctx):
         ctx.fail(f"roundtrip/{cls}", f"read {back.comments!r}, expected {want_comments!r} (leading blanks aside)")
 
     # read_swc gives the same table
-    src2, _ = _open(None, case["kind"], ctx, tree, kw, "b.swc")
-    df, cm = read_swc(src2)
+    src2, _, rkw2 = _open(None, case["kind"], ctx, tree, kw, "b.swc", enc)
+    df, cm = read_swc(src2, **rkw2)
     ctx.check(df["pid"].tolist() == parents and len(df) == n, "read_swc/same-table", "read_swc differs")
     ctx.check(_strip(cm) == got_comments, "read_swc/same-comments", "comments differ between front ends")
 
@@ -212,5 +239,6 @@ SUBCHECKS = [
         required={"kind:str": 100, "kind:bytes": 100, "kind:path": 100, "regime:full-float32": 200,
                   "offset:0": 50, "offset:1000000": 50, "source:False": 50, "source:string": 100,
                   "single-node": 10, "blank-comment": 30, "non-ascii-comment": 20, "deep-or-large": 4,
-                  "ids-beyond-2^24": 150, "type-code-beyond-a-byte": 100}),
+                  "ids-beyond-2^24": 150, "type-code-beyond-a-byte": 100, "comments-appended-after-construction": 200,
+                  "stored-as:utf-16": 30, "stored-as:utf-32": 30, "text-longer-than-1MiB": 4}),
 ]
